@@ -10,11 +10,15 @@
      - C17_modes: a train whose last core is replaced has entries (left part) x (new last core): for tdmd_exact the
        new last core is y_last x_last^T W L^-1, so the unfolded modes are Y V^T S^-1 W L^-1 (exact DMD modes); for
        tdmd_standard it is W on top of the left part U of pinv(x), i.e. U W (projected DMD modes).
+     - C17_exact_mode_eigen / C17_standard_mode_eigen: with U the unfolded spatial part of pinv(x), Bm = Y V^T S^-1 and
+       the reduced matrix Mred = U^T Bm, every eigenpair (lam, w) of Mred gives the exact mode c * Bm w (the code's
+       c = 1/lam) with (Y X^+) phi = lam phi, and - when U^T U = I - the projected mode U w with
+       (U U^T Y X^+)(U w) = lam (U w): the returned modes are the exact resp. projected DMD modes.
    Outside the proof: eig is an oracle (tape); the ordering (numpy argsort of complex numbers) and "inputs unchanged"
    are decided by correspondence and side check. *)
 From Coq Require Import ZArith List Lia Arith.
 Import ListNotations.
-Require Import Ring Sums Matrix Core Chain Tdmd TdmdProof.
+Require Import Ring Sums Matrix Core Chain Tdmd TdmdProof DmdModes.
 Open Scope cr_scope.
 
 Theorem C17_reduced_matrix (R : cring) (xs ys : list (core R)) (xl yl : core R) a a' :
@@ -32,6 +36,19 @@ Theorem C17_modes (R : cring) (pre : list (core R)) (c : core R) ks q a0 :
 Proof. exact (elem_last pre c ks q a0). Qed.
 Print Assumptions C17_modes.
 
+Theorem C17_exact_mode_eigen (R : cring) (N r : nat) (U Bm : M R) (w : nat -> R) (lam c : R) x :
+  (forall a, (a < r)%nat -> sum r (fun b => Mred N U Bm a b * w b) = lam * w a) ->
+  sum N (fun y => Aop r U Bm x y * (c * sum r (fun b => Bm y b * w b))) = lam * (c * sum r (fun b => Bm x b * w b)).
+Proof. intros Hw. exact (exact_mode_eigen N r U Bm w lam Hw c x). Qed.
+Print Assumptions C17_exact_mode_eigen.
+
+Theorem C17_standard_mode_eigen (R : cring) (N r : nat) (U Bm : M R) (w : nat -> R) (lam : R) x :
+  (forall a, (a < r)%nat -> sum r (fun b => Mred N U Bm a b * w b) = lam * w a) ->
+  (forall a b, (a < r)%nat -> (b < r)%nat -> sum N (fun x => U x a * U x b) = delta a b) ->
+  sum N (fun y => PAop N r U Bm x y * sum r (fun c => U y c * w c)) = lam * sum r (fun c => U x c * w c).
+Proof. intros Hw HU. exact (standard_mode_eigen N r U Bm w lam Hw HU x). Qed.
+Print Assumptions C17_standard_mode_eigen.
+
 (* non-vacuity: a concrete order-3 instance evaluates both sides *)
 Definition exc (r1 n r2 : nat) (s : Z) : core ZIring :=
   @mkcore ZIring r1 n 1 r2 (fun a k _ b => (Z.of_nat (a + 2 * k + 3 * b) + s, Z.of_nat (a * b))%Z).
@@ -40,3 +57,13 @@ Example ex_reduced :
   sum 2 (fun b => sgram [exc 1 2 2 0; exc 2 3 2 1] [exc 1 2 3 2; exc 3 3 2 0] 0%nat 0%nat 1%nat b *
                   sum 4 (fun k => g (exc 2 4 1 1) 0%nat k 0%nat 0%nat * g (exc 2 4 1 0) b k 0%nat 0%nat)).
 Proof. vm_compute. reflexivity. Qed.
+
+(* non-vacuity of the mode theorems: N = 3, r = 2, U = first two unit vectors, Bm = [[2,0],[0,3],[5,7]]: Mred = diag(2,3),
+   w = e_1 with lam = 3 *)
+Definition exU : M Zring := fun x a => if Nat.eqb x a then 1%Z else 0%Z.
+Definition exBm : M Zring := fun x a => match x, a with 0%nat, 0%nat => 2%Z | 1%nat, 1%nat => 3%Z | 2%nat, 0%nat => 5%Z | 2%nat, 1%nat => 7%Z | _, _ => 0%Z end.
+Definition exw : nat -> Zring := fun b => if Nat.eqb b 1 then 1%Z else 0%Z.
+Example ex_modes_hyp :
+  (forall a, (a < 2)%nat -> sum 2 (fun b => Mred 3 exU exBm a b * exw b) = (3%Z : Zring) * exw a) /\
+  (forall a b, (a < 2)%nat -> (b < 2)%nat -> sum 3 (fun x => exU x a * exU x b) = delta a b).
+Proof. split; [intros [|[|a]] Ha; try lia; vm_compute; reflexivity | intros [|[|a]] [|[|b]] Ha Hb; try lia; vm_compute; reflexivity]. Qed.
